@@ -63,12 +63,14 @@ type Enc struct {
 	mapPair        map[string]*mapPairInfo // MD or MV heap name -> pair
 	entryAlloc     bool // alloc!0 exists: entry-state closure axioms are emitted
 	lockDiscipline bool
+	inlineBudget   int
 	callPolicy     string // "" (contracts + inlining) | "shallow" (contracts; other module calls skipped) | "lock"
 }
 
 func newEnc(prog *ssa.Program, specs *SpecDB) *Enc {
 	e := &Enc{prog: prog, specs: specs, declared: map[string]bool{}, heapSort: map[string]string{}, tags: map[string]int{},
 		lits: map[string]string{}, nilDom: map[string]string{}, mapPair: map[string]*mapPairInfo{}, notes: map[string]bool{}, structs: map[string]bool{}, funcsUsed: map[string]string{}}
+	e.inlineBudget = 80
 	e.decls = append(e.decls, preludeBase)
 	for _, d := range specs.preludeDecls {
 		e.decls = append(e.decls, d)
